@@ -8,8 +8,11 @@ NNodes  == EnvInt("VERIF_NODES", 3)
 MaxDecl == EnvInt("VERIF_MAXDECL", 3)
 MaxQ    == EnvInt("VERIF_MAXQ", 2)
 
+\* VERIF_CHAIN = 1: four units that can only be connected as a chain n1 - n2 - n3 - n4, and questions only between units
+\* at least two links apart: a conversion that fails is later made possible by a declaration between two OTHER units
+Chain == EnvInt("VERIF_CHAIN", 0)
 MCFund == {"L"}
-MCBase == IF NNodes = 3 THEN {"n1", "n2", "n3"} ELSE {"n1", "n2", "n3", "n4"}
+MCBase == IF NNodes = 3 /\ Chain = 0 THEN {"n1", "n2", "n3"} ELSE {"n1", "n2", "n3", "n4"}
 MCbdim == [b \in MCBase |-> [L |-> 1]]
 B(x) == [c \in MCBase |-> IF c = x THEN 1 ELSE 0]
 C(l, pv, p, r) == [l |-> l, lp |-> 0, pv |-> pv, p |-> p, r |-> B(r)]
@@ -18,7 +21,8 @@ C(l, pv, p, r) == [l |-> l, lp |-> 0, pv |-> pv, p |-> p, r |-> B(r)]
 \* replaces it - a corrected definition.  Only histories whose equivalences in force stay free of contradiction are
 \* explored (with n3 = 6 n1 and n2 = 2 n1 in force the correction would contradict them).
 Redecl == EnvInt("VERIF_REDECL", 0)
-MCCands == IF NNodes = 3
+MCCands == IF Chain = 1 THEN << C("n2", <<1, 0, 0>>, 0, "n1"), C("n3", <<0, 1, 0>>, 0, "n2"), C("n4", <<0, 0, 1>>, 0, "n3") >>
+           ELSE IF NNodes = 3
            THEN IF Redecl = 1
                 THEN << C("n2", <<1, 0, 0>>, 0, "n1"), C("n3", <<0, 1, 0>>, 0, "n2"), C("n3", <<1, 1, 0>>, 0, "n1"), C("n3", <<0, 0, 1>>, 0, "n2") >>
                 ELSE << C("n2", <<1, 0, 0>>, 0, "n1"), C("n3", <<0, 1, 0>>, 0, "n2"), C("n3", <<1, 1, 0>>, 0, "n1") >>
@@ -35,11 +39,13 @@ DefineLate(b) == /\ b \in Late /\ b \notin Defined
                  /\ ev' = Ev("define", 0, Single(b), Single(b), "ok", PV0, 0)
                  /\ hist' = Append(hist, ev') /\ UNCHANGED decl
 Usable(i) == {MCCands[i].l} \cup Support(MCCands[i].r) \subseteq Defined
+Pos(n) == CHOOSE i \in 1..4 : n = <<"n1", "n2", "n3", "n4">>[i]
+Far(a, b) == Pos(a) - Pos(b) \notin {-1, 0, 1}
 NQ == Cardinality({k \in 1..Len(hist) : hist[k].op \in {"query", "compare"}})
 MCNext ==
   \/ \E i \in 1..Len(MCCands) : Len(decl) < MaxDecl /\ Usable(i) /\ ConsistentSet(EffOf(Append(decl, i))) /\ Declare(i)
-  \/ \E a, b \in Defined : a # b /\ NQ < MaxQ /\ QueryNode(a, b, 1)
-  \/ \E a, b \in Defined : a # b /\ NQ < MaxQ /\ CompareNode(a, b, 1)
+  \/ \E a, b \in Defined : a # b /\ NQ < MaxQ /\ (Chain = 1 => Far(a, b)) /\ QueryNode(a, b, 1)
+  \/ \E a, b \in Defined : a # b /\ NQ < MaxQ /\ (Chain = 1 => Far(a, b)) /\ CompareNode(a, b, 1)
   \/ \E b \in Late : DefineLate(b)
 \* theorem config: declaration subsets only (no history), all orders
 MCNextDecl == \E i \in 1..Len(MCCands) : Declare(i)
